@@ -58,6 +58,10 @@ type HarnessSpec struct {
 	MaxPaths    map[string]int `json:"max_paths,omitempty"`
 	BudgetS     map[string]int `json:"budget_s,omitempty"`
 	ReverseMaps bool           `json:"reverse_maps,omitempty"`
+	// OnlyLabels: when set, only violations whose label contains one of these
+	// substrings belong to this property (the harness is shared with another
+	// property that owns the remaining assertions).
+	OnlyLabels []string `json:"only_labels,omitempty"`
 	Note        string         `json:"note,omitempty"`
 }
 
@@ -565,6 +569,17 @@ func cmdRun(args []string) int {
 		byLabel := map[string][]interp.Violation{}
 		var labels []string
 		for _, v := range st.Violations {
+			if len(h.OnlyLabels) > 0 {
+				keep := false
+				for _, sub := range h.OnlyLabels {
+					if strings.Contains(v.Label, sub) {
+						keep = true
+					}
+				}
+				if !keep {
+					continue
+				}
+			}
 			if len(byLabel[v.Label]) == 0 {
 				labels = append(labels, v.Label)
 			}
